@@ -42,6 +42,9 @@ type State struct {
 	defers []*ssa.Defer
 	dead   bool
 	recMem map[string]*Term // non-nil while a recursive spec body is translated: memory classes are parameters
+	// lockSnap: the state right after the most recent lock acquisition on this path (nil: none yet,
+	// the entry state stands in); read by atlock(e) in specifications
+	lockSnap *State
 }
 
 func (s *State) clone() *State {
@@ -53,6 +56,7 @@ func (s *State) clone() *State {
 		n.mem[k] = v
 	}
 	n.defers = append([]*ssa.Defer{}, s.defers...)
+	n.lockSnap = s.lockSnap
 	return n
 }
 
@@ -573,6 +577,25 @@ func (e *FnExec) merge(ins []*State, conds []*Term) *State {
 				out.defers = append(out.defers, d)
 			}
 		}
+	}
+	// the lock snapshots merge like the states themselves
+	sameSnap := true
+	for _, s := range ins[1:] {
+		if s.lockSnap != ins[0].lockSnap {
+			sameSnap = false
+		}
+	}
+	if sameSnap {
+		out.lockSnap = ins[0].lockSnap
+	} else {
+		snaps := make([]*State, len(ins))
+		for i, s := range ins {
+			snaps[i] = s.lockSnap
+			if snaps[i] == nil {
+				snaps[i] = e.entry
+			}
+		}
+		out.lockSnap = e.merge(snaps, conds)
 	}
 	return out
 }
